@@ -7,8 +7,10 @@ import (
 	"io"
 	"net/http"
 	"net/http/httptest"
+	"net/url"
 	"regexp"
 	"sort"
+	"strconv"
 	"strings"
 	"sync"
 	"testing"
@@ -67,19 +69,28 @@ type vUpSpec struct {
 }
 
 func driveC17(t *testing.T, out *vEmitter) {
+	vC17Wire(t, out)
 	sets := [][]vUpSpec{
 		{{id: "root", path: "/"}, {id: "api", path: "/api/"}, {id: "apiv2", path: "/api/v2/"}, {id: "exact", path: "/exact"}},
 		{{id: "root", path: "/"}, {id: "legacy", path: "^/legacy/(.*)$", rewrite: "/new/$1"}, {id: "l", path: "^/l", rewrite: "/short"},
-			{id: "static", path: "/static-resp/", static: true}, {id: "q", path: "^/q/(.*)$", rewrite: "/qq/$1?added=1&x=y"}},
+			{id: "static", path: "/static-resp/", static: true}, {id: "q", path: "^/q/(.*)$", rewrite: "/qq/$1?added=1&x=y"}, {id: "art", path: "^/articles/([^/]*)$", rewrite: "/article?id=$1"}},
 		{{id: "a", path: "/a/"}, {id: "ab", path: "/ab/"}, {id: "a-b", path: "/a/b/"}, {id: "abc", path: "/a/b/c"}, {id: "nohost", path: "/nohost/", noPassHost: true}},
 		{{id: "apiv2", path: "/api/v2/"}, {id: "static-root", path: "/", static: true}, {id: "api", path: "/api/"}, {id: "rw", path: "^/api/v2/special", rewrite: "/s"}},
 	}
 	paths := []string{"/", "/x", "/api", "/api/", "/api/users", "/api/v2", "/api/v2/", "/api/v2/items?q=1", "/api/v2/special/1", "/apix", "/exact", "/exact/", "/exact/x",
 		"/api/x%2Fy", "/api/v2/a%20b", "/api/%2e%2e/x", "/api/a+b", "/api/c;d=1", "/api/%C3%A9", "/api/é", "/legacy/one/two", "/legacy/", "/legacy/my%20file.txt", "/legacy/caf%C3%A9/x", "/legacy/a%2Fb", "/q/a%20b?orig=1", "/lx%20y", "/l", "/lx/y", "/q/z?orig=1&x=0",
+		"/articles/blog-2021", "/articles/a%20b", "/articles/a%3Bb", "/articles/a%26b%3Dc", "/articles/50%25", "/legacy/x?x=%2F&y=%3D;z&k=1", "/legacy/x?a=%zz&b=2", "/q/x?b=2&a=1&b=1",
 		"/static-resp/x", "/a/", "/a/x", "/ab/x", "/a/b/x", "/a/b/c", "/a/b/c/", "/a/b/cd", "/nohost/x", "/a", "/ab", "/new/direct"}
 	queries := []string{"", "?q=1&r=a+b%20c", "?", "?x=%2F&y=%3D;z"}
 	for si, set := range sets {
-		for _, rawPath := range []bool{false, true} {
+		for _, variant := range []int{0, 1, 2} {
+			// variant 2: every request also asks for a non-websocket protocol upgrade (Connection: Upgrade,
+			// Upgrade: h2c) -- still an ordinary proxied request
+			rawPath := variant == 1
+			upgrade := variant == 2
+			if upgrade && si != 1 && si != 2 && !vThorough() {
+				continue
+			}
 			backends := map[string]*vBackend{}
 			var ups []options.Upstream
 			for _, u := range set {
@@ -138,6 +149,9 @@ func driveC17(t *testing.T, out *vEmitter) {
 					if body != "" {
 						hs = append(hs, [2]string{"Content-Type", "application/octet-stream"})
 					}
+					if upgrade {
+						hs = append(hs, [2]string{"Connection", "Upgrade"}, [2]string{"Upgrade", "h2c"})
+					}
 					res := b.do(method, target, hs, body)
 					var hit *vBackendHit
 					for _, be := range backends {
@@ -181,7 +195,30 @@ func driveC17(t *testing.T, out *vEmitter) {
 					if res.Status != 301 || hit != nil || true {
 						// a 301 from the OUTER router's path cleaning never reaches the upstream mux
 						cleanRedirect := res.Status == 301 && res.Location() != target+"/" && !strings.HasSuffix(res.Location(), "/"+q) && res.Location() != p+"/"+q
-						if !cleanRedirect {
+						// a rewrite the proxy refuses (the rewritten query cannot be parsed) is answered by the error page
+						rewriteRefused := false
+						if res.Status == 500 && hit == nil {
+							for _, u := range set {
+								if u.rewrite == "" {
+									continue
+								}
+								if re := regexp.MustCompile(u.path); re.MatchString(req.URL.Path) {
+									nu := re.ReplaceAllString(req.URL.Path, u.rewrite)
+									if i := strings.Index(nu, "?"); i >= 0 {
+										if _, err := url.ParseQuery(nu[i+1:]); err != nil {
+											rewriteRefused = true
+										}
+									}
+								}
+							}
+							if rewriteRefused {
+								out.Stat("rewrite_refused", 1)
+							} else {
+								out.Violation("upstream/not-delivered", "an authenticated request that matches an upstream was answered with an error instead of being delivered",
+									map[string]interface{}{"target": target, "status": res.Status, "set": si})
+							}
+						}
+						if !cleanRedirect && !rewriteRefused {
 							out.Case("route", true, obs, vL("upstream_route", vL(listSX...), vL(mt...), vS(mpath), vS(req.URL.Path)))
 						}
 					}
@@ -261,6 +298,41 @@ func driveC17(t *testing.T, out *vEmitter) {
 								map[string]interface{}{"sent": target, "got": hit.requestURI, "want_path": u2.EscapedPath(), "rule": spec.path + " -> " + spec.rewrite})
 						}
 					}
+					if spec.rewrite != "" {
+						// the query: the original parameters, plus those the rewrite target adds (rewrite.go: splitPathAndQuery)
+						gotQ := ""
+						if i := strings.Index(hit.requestURI, "?"); i >= 0 {
+							gotQ = hit.requestURI[i+1:]
+						}
+						sentV, err1 := url.ParseQuery(req.URL.RawQuery)
+						gotV, err2 := url.ParseQuery(gotQ)
+						if err1 == nil && err2 == nil {
+							wantV := url.Values{}
+							for k, vs := range sentV {
+								wantV[k] = append([]string(nil), vs...)
+							}
+							re := regexp.MustCompile(spec.path)
+							nu := re.ReplaceAllString(req.URL.Path, spec.rewrite)
+							if i := strings.Index(nu, "?"); i >= 0 {
+								if add, err := url.ParseQuery(nu[i+1:]); err == nil {
+									for k, vs := range add {
+										wantV[k] = append(wantV[k], vs...)
+									}
+								}
+							}
+							if wantV.Encode() != gotV.Encode() {
+								out.Violation("upstream/rewrite-query", "a rewritten request lost or changed query parameters (original ones, or those the rewrite target adds)",
+									map[string]interface{}{"sent": target, "got": hit.requestURI, "want_query": wantV.Encode(), "rule": spec.path + " -> " + spec.rewrite, "upgrade": upgrade})
+							}
+						} else if err1 != nil {
+							// a query net/url cannot parse has no parameter-level reading: it must arrive verbatim
+							out.Stat("rewrite_query_unparsable", 1)
+							if !strings.Contains("&"+gotQ+"&", "&"+req.URL.RawQuery+"&") {
+								out.Violation("upstream/rewrite-query", "a rewritten request lost or changed query parameters (original ones, or those the rewrite target adds)",
+									map[string]interface{}{"sent": target, "got": hit.requestURI, "want_query_contains": req.URL.RawQuery, "rule": spec.path + " -> " + spec.rewrite, "upgrade": upgrade})
+							}
+						}
+					}
 					if strings.Join(hit.header["X-Custom"], ",") != "v1,v2" || hit.header.Get("Accept") != "text/x-verif" || hit.header.Get("X-Weird-Name_1") != "w" || hit.header.Get("User-Agent") != "verif/1" {
 						out.Violation("upstream/header-changed", "an end-to-end request header that is not an injected one was altered",
 							map[string]interface{}{"x_custom": hit.header["X-Custom"], "accept": hit.header.Get("Accept"), "target": target})
@@ -285,6 +357,71 @@ func driveC17(t *testing.T, out *vEmitter) {
 			}
 			for _, be := range backends {
 				be.srv.Close()
+			}
+		}
+	}
+}
+
+
+// vC17Wire puts the proxy behind a real HTTP server so that informational (1xx) responses of the
+// upstream, which a ResponseRecorder cannot represent, are exercised: whatever the upstream sends
+// before its final response, the client receives the upstream's final status, headers and body.
+func vC17Wire(t *testing.T, out *vEmitter) {
+	backend := httptest.NewServer(http.HandlerFunc(func(rw http.ResponseWriter, r *http.Request) {
+		parts := strings.Split(strings.Trim(r.URL.Path, "/"), "/")
+		code := 200
+		if len(parts) >= 2 {
+			code, _ = strconv.Atoi(parts[1])
+		}
+		if parts[0] == "early" || parts[0] == "early2" {
+			rw.Header().Set("Link", "</style.css>; rel=preload")
+			rw.WriteHeader(http.StatusEarlyHints)
+			if parts[0] == "early2" {
+				rw.WriteHeader(http.StatusEarlyHints)
+			}
+		}
+		rw.Header().Set("X-Backend", "wire")
+		rw.Header().Set("Content-Type", "application/x-verif")
+		rw.WriteHeader(code)
+		if code != 204 && code != 304 && r.Method != "HEAD" {
+			fmt.Fprintf(rw, "final=%d", code)
+		}
+	}))
+	defer backend.Close()
+	e := vNewEnv(t, vEnvCfg{keepUpstream: true, mod: func(o *options.Options) {
+		o.UpstreamServers = options.UpstreamConfig{Upstreams: []options.Upstream{{ID: "wire", Path: "/", URI: backend.URL}}}
+		o.Cookie.Refresh = 0
+	}})
+	b := e.newBrowser("https://app.example.com")
+	b.seedSession("user@example.com", time.Minute, 20)
+	front := httptest.NewServer(http.HandlerFunc(func(rw http.ResponseWriter, r *http.Request) { e.p.ServeHTTP(rw, r) }))
+	defer front.Close()
+	client := &http.Client{CheckRedirect: func(*http.Request, []*http.Request) error { return http.ErrUseLastResponse }, Timeout: 10 * time.Second}
+	for _, kind := range []string{"plain", "early", "early2"} {
+		for _, code := range []int{200, 201, 204, 206, 301, 304, 400, 404, 418, 500, 503} {
+			for _, method := range []string{"GET", "POST"} {
+				target := fmt.Sprintf("/%s/%d", kind, code)
+				req, _ := http.NewRequest(method, front.URL+target, nil)
+				req.Host = "app.example.com"
+				req.Header.Set("Cookie", b.cookieHeader(target))
+				resp, err := client.Do(req)
+				out.Stat("wire_requests", 1)
+				if err != nil {
+					out.Violation("upstream/response-changed", "the upstream's response was not relayed (transport error at the client)",
+						map[string]interface{}{"target": target, "method": method, "error": err.Error()})
+					continue
+				}
+				body, _ := io.ReadAll(resp.Body)
+				resp.Body.Close()
+				wantBody := fmt.Sprintf("final=%d", code)
+				if code == 204 || code == 304 {
+					wantBody = ""
+				}
+				out.Obs("wire/"+kind, true, vL(vI(int64(code)), vI(int64(resp.StatusCode))))
+				if resp.StatusCode != code || string(body) != wantBody || resp.Header.Get("X-Backend") != "wire" {
+					out.Violation("upstream/response-changed", "the upstream's status, headers or body were not relayed unchanged",
+						map[string]interface{}{"target": target, "method": method, "status": resp.StatusCode, "want_status": code, "body": string(body), "informational_first": kind != "plain"})
+				}
 			}
 		}
 	}
